@@ -10,6 +10,7 @@ import numpy as np
 import common
 import meta
 import popgen
+import t3
 
 
 def simulate_w(df, date, targets):
@@ -31,8 +32,9 @@ def run(tier: str) -> int:
               "re-association through a supplied time unit ≤ 1e-9); overlap warning present iff a data column names a "
               "function; a supplied column with *different* values must be used (consumers change or n itself is returned). "
               "distinct = (population, node).")
-    common.build_and_audit(r, ["C05"], leanchecker=not quick)
+    common.build_and_audit(r, ["C05", "T3"], leanchecker=not quick)
     rnd = common.rng("C05")
+    t3.run_t3(r, 1000 * common.seed() + 5, 40 if quick else 600)
     from _gettsim.config import DEFAULT_TARGETS
     for date in (popgen.DATES_QUICK if quick else popgen.DATES_2015[::2]):
         nodes = popgen.computed_nodes(date)
